@@ -220,6 +220,38 @@ def posAt (rs : List Rat) (n : Nat) : Rat := (rs.take n).sum
 theorem posAt_nonneg (rs : List Rat) (hrs : ∀ r ∈ rs, 0 ≤ r) (n : Nat) : 0 ≤ posAt rs n :=
   List.sum_nonneg fun x hx => hrs x (List.mem_of_mem_take hx)
 
+/-- the state the run leaves behind still tracks the position: after outputs at ratios `rs` the source has
+    been pulled `⌊P + r_0 + … + r_(m-2)⌋` times (the pulls are made by the *next* output, not in advance),
+    and the frames are untouched — this is what `into_source()` hands back -/
+theorem run_final (ip : Interp Rat S I) (eq : List S) (frames : List (List S)) (p0 : Nat) (ist0 : I)
+    (rs : List Rat) (hrs : ∀ r ∈ rs, 0 ≤ r) (c : St Rat S I) (P : Rat) (k : Nat)
+    (h : Tracks ip eq frames p0 ist0 c P k) :
+    Tracks ip eq frames p0 ist0 (run AR ip eq rs c).2 (P + rs.sum)
+      (if rs = [] then k else ⌊P + posAt rs (rs.length - 1)⌋.toNat) := by
+  induction rs generalizing c P k with
+  | nil => simpa [run] using h
+  | cons r rs ih =>
+    have hr : 0 ≤ r := hrs r (by simp)
+    obtain ⟨_, h2, _⟩ := stepObs_spec sn cs pi ip eq frames p0 ist0 (setPlaybackHzScale c r) P k (h.setRatio r) hr
+    have h3 := ih (fun x hx => hrs x (by simp [hx])) _ _ _ h2
+    simp only [run, List.sum_cons, reduceCtorEq, if_false, List.length_cons, Nat.add_sub_cancel]
+    have e : (setPlaybackHzScale c r).ratio = r := rfl
+    rw [e] at h3
+    have e2 : P + (r + rs.sum) = P + r + rs.sum := by ring
+    rw [e2]
+    by_cases hn : rs = []
+    · subst hn
+      simpa [posAt] using h3
+    · rw [if_neg hn] at h3
+      have hl : rs.length = (rs.length - 1) + 1 := by
+        cases rs with
+        | nil => exact absurd rfl hn
+        | cons _ _ => simp
+      have e3 : posAt (r :: rs) rs.length = r + posAt rs (rs.length - 1) := by
+        rw [posAt, hl, List.take_succ_cons, List.sum_cons]; rfl
+      rw [e3, ← add_assoc]
+      exact h3
+
 theorem specRun_getElem? (ip : Interp Rat S I) (eq : List S) (frames : List (List S)) (p0 : Nat) (ist0 : I)
     (rs : List Rat) (P : Rat) (k n : Nat) (hn : n < rs.length) :
     (specRun ip eq frames p0 ist0 P k rs)[n]? =
